@@ -112,6 +112,8 @@ pub fn merge_stats(a: &mut RunStats, b: &RunStats) {
     a.late_join += b.late_join;
     a.restart_after_exit += b.restart_after_exit;
     a.forced_start += b.forced_start;
+    a.clock_jumps += b.clock_jumps;
+    a.teardown_ops += b.teardown_ops;
     a.blocked_handoffs += b.blocked_handoffs;
     a.hash_rekey += b.hash_rekey;
     for (k, v) in &b.poison_ops {
@@ -353,6 +355,9 @@ fn spawn_worker(b: &BatchArgs, pool_path: &str, refs_path: &str, from: u64, to: 
         .args(["--hash-every", &b.hash_every.to_string()]);
     if no_yield {
         c.arg("--no-yield");
+    }
+    if let Some(shim) = crate::procs::clock_shim() {
+        c.env("LD_PRELOAD", shim);
     }
     // the library prints a warning to stderr when a CRS instance crosses 10 000 lookups
     let errlog = std::fs::OpenOptions::new().create(true).append(true).open(format!("{}/workers.stderr", b.work_dir));
@@ -827,26 +832,26 @@ fn world_file(g: &GenCtx, tables: &[Vec<u32>; 4], verif_seed: u64, w: u64) -> (R
         pro.expected.push(g.refs[ix].outcome.clone().unwrap());
         pro.foot.push(g.refs[ix].foot);
         pro.poison.push(None);
-        let step = crate::scenario::Step { op: k as u32, repeat: 1, rekey: None };
+        let step = crate::scenario::Step { op: k as u32, repeat: 1, rekey: None, clock_jump_ms: 0 };
         match variant {
             "one_thread_forced_order" => {
                 if pro.threads.is_empty() {
-                    pro.threads.push(crate::scenario::ThreadPlan { start: crate::scenario::Start::AtBegin, hash_key: 0, steps: Vec::new(), stack_kb: 0 });
+                    pro.threads.push(crate::scenario::ThreadPlan { start: crate::scenario::Start::AtBegin, hash_key: 0, steps: Vec::new(), stack_kb: 0, exit_ops: Vec::new(), exit_guard_early: false });
                 }
                 pro.threads[0].steps.push(step);
             }
             "poison_first" => {
                 if pro.threads.is_empty() {
-                    pro.threads.push(crate::scenario::ThreadPlan { start: crate::scenario::Start::AtBegin, hash_key: 0, steps: Vec::new(), stack_kb: 0 });
+                    pro.threads.push(crate::scenario::ThreadPlan { start: crate::scenario::Start::AtBegin, hash_key: 0, steps: Vec::new(), stack_kb: 0, exit_ops: Vec::new(), exit_guard_early: false });
                 }
                 pro.threads[0].steps.push(step);
             }
             "chained_threads_forced_order" => {
                 let start = if k == 0 { crate::scenario::Start::AtBegin } else { crate::scenario::Start::AfterExit((k - 1) as u8) };
-                pro.threads.push(crate::scenario::ThreadPlan { start, hash_key: 0, steps: vec![step], stack_kb: 0 });
+                pro.threads.push(crate::scenario::ThreadPlan { start, hash_key: 0, steps: vec![step], stack_kb: 0, exit_ops: Vec::new(), exit_guard_early: false });
             }
             _ => {
-                pro.threads.push(crate::scenario::ThreadPlan { start: crate::scenario::Start::AtBegin, hash_key: 0, steps: vec![step], stack_kb: 0 });
+                pro.threads.push(crate::scenario::ThreadPlan { start: crate::scenario::Start::AtBegin, hash_key: 0, steps: vec![step], stack_kb: 0, exit_ops: Vec::new(), exit_guard_early: false });
             }
         }
     }
